@@ -15,6 +15,7 @@ Safety model (bank-grade, fail closed):
 import json
 import logging
 import os
+import posixpath
 import time
 from typing import Dict, Set
 
@@ -316,4 +317,14 @@ class GarbageCollector:
             and (path == root or path.startswith(root + "/"))
         ):
             path = path[len(root):]
-        return path.lstrip("/")
+        path = path.lstrip("/")
+        # Collapse '//', '/./' and 'x/../' so that a manifest entry spelled
+        # 'data//x.parquet' or 'data/sub/../x.parquet' (both resolve to the
+        # same file on the read path) matches the canonical 'data/x.parquet'
+        # the storage listing returns - otherwise the live file looks like an
+        # orphan. A leading '..' is kept so the escape guard still sees it.
+        if path:
+            path = posixpath.normpath(path)
+            if path == ".":
+                path = ""
+        return path
